@@ -14,11 +14,12 @@ func init() {
 		ruleGRDcrc(w, r)
 		ruleCDC6b(w, r)
 		ruleGRDscan(w, r)
-		ruleORD11(w, r)        // the offset a resync starts from never lags behind the frames already applied
-		ruleCDC16(w, r)        // writer and reader agree on the frame size limit
-		ruleGRDownParse(w, r)  // arguments read back byte for byte: none is a window into the reader's buffer
-		ruleORD15(w, r)        // still applies every intact command after a damaged region
-		ruleGRDshortread(w, r) // a decoder fills its buffers with io.ReadFull, never with one Read
+		ruleORD11(w, r)         // the offset a resync starts from never lags behind the frames already applied
+		ruleCDC16(w, r)         // writer and reader agree on the frame size limit
+		ruleGRDownParse(w, r)   // arguments read back byte for byte: none is a window into the reader's buffer
+		ruleORD15(w, r)         // still applies every intact command after a damaged region
+		ruleGRDshortread(w, r)  // a decoder fills its buffers with io.ReadFull, never with one Read
+		ruleGRDeagerframe(w, r) // a garbage length field does not cost an allocation of its size
 	})
 }
 
